@@ -54,6 +54,7 @@ public:
         if (!scenario && mk.geti("outs") > 0 && w.chance(0.8)) { Json o = Json::object(); o["op"] = "load"; o["variant"] = 0.0; ops.push(o); }
         for (int k = 0; k < nops; k++) ops.push(genOp(w, d, true));
         p["ops"] = ops;
+        p["weights_first"] = w.chance(0.4);
         if (w.chance(0.15)) { Json sw = Json::object(); sw["dims"] = w.range(1, 4); sw["particles"] = w.range(1, 9); sw["iterations"] = w.range(1, 4); sw["seed"] = (long long)(w.next() >> 40);
                               sw["inertia"] = w.pick<double>({0.3, 0.5, 0.9}); sw["cognitive"] = 2.0; sw["social"] = w.pick<double>({1.0, 2.0}); p["swarm"] = sw; }
         Json sc = Json::object();
